@@ -1002,6 +1002,21 @@ func degradeToSequential(run *spec.Run, meta *c18Meta) {
 // reaches only a few such sites (parameter extraction, Validate); a change that adds a
 // cache, a pool, a lock, a lazily built table or a codec field adds sites, and each is
 // visited deterministically instead of by chance.
+// tsFamilies groups the syntaxes whose codecs share packages (and so could share a cache).
+var tsFamilies = [][]string{{"50", "51", "57", "70"}, {"80", "81"}, {"90", "91", "92", "93", "201", "202", "203"}, {"rle"}}
+
+// siblingTS is the next syntax of the same family (itself when the family has one member).
+func siblingTS(ts string) string {
+	for _, f := range tsFamilies {
+		for i, x := range f {
+			if x == ts {
+				return f[(i+1)%len(f)]
+			}
+		}
+	}
+	return ts
+}
+
 func genSiteSweep(b *Build, rc *refCache, o checkOpts, thorough bool) ([]spec.Run, []c18Meta) {
 	type tmpl struct {
 		ts, kind, variant string
@@ -1011,27 +1026,42 @@ func genSiteSweep(b *Build, rc *refCache, o checkOpts, thorough bool) ([]spec.Ru
 	var ops []spec.Op
 	for ci, codec := range allTS {
 		for ki, kind := range []string{"enc", "dec"} {
-			for vi, variant := range []string{"private", "shared"} {
+			for vi, variant := range []string{"private", "shared", "cross"} {
 				r := spec.NewRng(spec.SplitMix64(o.seed^0x517E) ^ uint64(ci*16+ki*4+vi))
 				in := genInfo(r, codec, genOpt{maxDim: 16})
-				mk := func(k string) spec.Op {
-					op := spec.Op{Kind: k, TS: codec, Info: in, Frames: genFrames(r, 1), From: -1, Obj: 1}
+				mkOn := func(k, c string, in spec.Info) spec.Op {
+					op := spec.Op{Kind: k, TS: c, Info: in, Frames: genFrames(r, 1), From: -1, Obj: 1}
 					if k == "dec" {
 						op.Pre = true
-						op.PreKV = genKV(r, codec)
+						op.PreKV = genKV(r, c)
 					}
 					if variant == "shared" {
 						op.Params = spec.Params{Mode: "shared-default"}
 					} else {
-						op.Params = spec.Params{Mode: spec.Pick(r, []string{"default", "base"}), KV: genKV(r, codec)}
+						op.Params = spec.Params{Mode: spec.Pick(r, []string{"default", "base"}), KV: genKV(r, c)}
 					}
 					return op
 				}
+				mk := func(k string) spec.Op { return mkOn(k, codec, in) }
 				other := "dec"
 				if kind == "dec" {
 					other = "enc"
 				}
-				t := tmpl{ts: codec, kind: kind, variant: variant, a: mk(kind), s1: mk(kind), s2: mk(other)}
+				t := tmpl{ts: codec, kind: kind, variant: variant, a: mk(kind)}
+				if variant == "cross" {
+					// the siblings differ from the pinned call in what a cache could be keyed by: the
+					// next codec of the same family on its own description, and the same codec on a
+					// description with the other container width
+					sib := siblingTS(codec)
+					t.s1 = mkOn(kind, sib, genInfo(r, sib, genOpt{maxDim: 16}))
+					in2 := in
+					for try := 0; try < 12 && in2.BA == in.BA; try++ {
+						in2 = genInfo(r, codec, genOpt{maxDim: 16})
+					}
+					t.s2 = mkOn(kind, codec, in2)
+				} else {
+					t.s1, t.s2 = mk(kind), mk(other)
+				}
 				ts = append(ts, t)
 				ops = append(ops, t.a, t.s1, t.s2)
 			}
